@@ -60,8 +60,9 @@ class Robust(Part):
                     for sizes in ([1], [2], [1, 1], [2, 1], [1, 2, 1], [3, 1, 2], [1, 1, 1, 1], [2, 3, 1, 2]):
                         if ctx.quick and rng.random() < 0.35:
                             continue
-                        cases.append({"kind": kind, "n": n, "userm": um, "sizes": sizes, "run": None, "twins": rng.random() < 0.3,
-                                      "cseed": rng.randrange(1 << 30)})
+                        twins = rng.random() < 0.3
+                        cases.append({"kind": kind, "n": n, "userm": um, "sizes": sizes, "run": None, "twins": twins,
+                                      "faulty": (not twins) and rng.random() < 0.35, "cseed": rng.randrange(1 << 30)})
         for _ in range(6 if ctx.quick else 60):
             cases.append({"kind": "worstcase", "n": rng.randint(1, 3), "userm": rng.randint(1, 2), "sizes": None,
                           "run": rng.choice(["nsga2", "epsmoea"]), "pop": rng.randint(2, 5), "gens": rng.randint(2, 4),
@@ -80,8 +81,13 @@ class Robust(Part):
         calls = {}
         lock_vectors = {}
 
+        failing = {}                    # vector -> remaining scripted transient failures (the design itself, not its neighbours)
+
         def f(ind):
             t = tuple(float(x) for x in ind.vector)
+            if failing.get(t, 0) > 0:
+                failing[t] -= 1
+                raise TimeoutError("scripted transient failure")
             calls[t] = calls.get(t, 0) + 1
             if kind == "gradient":
                 first = sum(c * x * x for c, x in zip(coef, ind.vector))
@@ -135,6 +141,8 @@ class Robust(Part):
                 return [rng.randint(-18, 18) * 0.5 for _ in range(n)]
             return [rng.randint(-int(18 / t), int(18 / t)) * t for t in tols]
 
+        if case.get("faulty") and kind == "gradient":
+            case["faulty"] = False          # the gradient identity needs lattice vectors; re-sampled designs are arbitrary floats
         if case["run"] is None:
             alg = DummyAlgorithm.__new__(DummyAlgorithm)
             from artap.algorithm import Algorithm
@@ -160,6 +168,8 @@ class Robust(Part):
                         continue
                     used |= hood
                     batch.append(Individual(v))
+                    if case.get("faulty") and rng.random() < 0.4:
+                        failing[tuple(v)] = rng.randint(1, 2)      # this design is re-sampled once or twice before it is evaluated
                     if case.get("twins") and len(batch) < size and rng.random() < 0.5:
                         batch.append(Individual(list(v)))      # a second design object with the same coordinates
                 seen.extend(batch)
